@@ -1,5 +1,5 @@
 """Failing inputs for the genuine defects found by the static rules (triage evidence, never run by a check).
-usage: /venv/bin/python repro.py [ID ...]      (IDs: F-01 .. F-10, K-01 .. K-12)
+usage: /venv/bin/python repro.py [ID ...]      (IDs: F-01 .. F-12, K-01 .. K-12)
 Each function returns a short description of the observed misbehaviour or raises the observed exception."""
 import signal, sys, traceback
 import ciw
@@ -83,6 +83,18 @@ def F_10():  # C14/C12  stale `interrupted` flag after a slotted restart: ValueE
         number_of_servers=[ciw.Slotted(slots=[1.0, 2.0, 3.0, 100.0], slot_sizes=[2, 1, 2, 2], capacitated=True, preemption='resume'), 1],
         queue_capacities=[inf, 0], routing=[[0.0, 1.0], [0.0, 0.0]])
     ciw.Simulation(N).simulate_until_max_time(200)
+
+def F_11():  # C13/C14  reneging customer stays cached as the next class changer: class-change event for a departed customer
+    N = ciw.create_network(arrival_distributions={'A': [E(1.0)], 'B': [E(1.0)]}, service_distributions={'A': [E(0.8)], 'B': [E(0.8)]},
+        number_of_servers=[1], priority_classes={'A': 0, 'B': 1}, reneging_time_distributions={'A': [D(1.0)], 'B': [D(1.0)]},
+        class_change_time_distributions={'A': {'B': D(1.5)}, 'B': {'A': D(1.5)}})
+    ciw.seed(0); Q = ciw.Simulation(N); Q.simulate_until_max_time(200)
+    return "ran to %s" % Q.current_time
+
+def F_12():  # C20  exact arithmetic + progress bar: Decimal increment reaches tqdm's float arithmetic
+    N = ciw.create_network(arrival_distributions=[E(1.0)], service_distributions=[E(2.0)], number_of_servers=[1])
+    ciw.seed(0); Q = ciw.Simulation(N, exact=26); Q.simulate_until_max_time(20, progress_bar=True)
+    return "ran to %s" % Q.current_time
 
 def K_01():  # C14  priority pre-emption decided on a node with no servers (class change while waiting)
     N = ciw.create_network(arrival_distributions={'A': [E(2)], 'B': [E(2)]}, service_distributions={'A': [E(3)], 'B': [E(3)]},
